@@ -357,6 +357,20 @@ impl World {
         m.queue_block(&c, block).await.map_err(|e| format!("{e:?}"))
     }
 
+    /// Offers a block that lies ahead of the node's next block: the call parks (waiting for the gap to close) and is cancelled
+    /// by its 1 ms deadline - what a block-sync call with a timeout does when a peer stalls a lower block.
+    pub async fn sync_block_ahead(&self, i: usize, block: validator::Block) -> Result<(), String> {
+        let node = self.node(i);
+        let Some(m) = node.manager.as_ref() else { return Err("down".into()) };
+        // (manual clock: a deadline never passes by itself, so the call gets a context that is cancelled already; queue_block
+        // verifies the block before it starts waiting for the gap, which is where the cancellation takes effect)
+        let c = self.ctx.with_timeout(time::Duration::ZERO);
+        for _ in 0..8 {
+            tokio::task::yield_now().await;
+        }
+        m.queue_block(&c, block).await.map_err(|e| format!("{e:?}"))
+    }
+
     pub async fn shutdown(&mut self) {
         for i in 0..self.nodes.len() {
             if self.nodes[i].is_some() {
